@@ -211,6 +211,8 @@ def sym_paths(body, limit=4000, init_env=None, fi=None, inliner=None) -> List[Sy
             sp.env = {k: inl.apply(v, fi) for k, v in env.items()}
         if _trivially_infeasible(sp):
             continue
+        # tests decided by the expression alone (and taken the only possible way) say nothing about the inputs
+        sp.conds = [(n_, t_) for n_, t_ in sp.conds if _decide(n_) is None]
         out.append(sp)
     return out
 
